@@ -251,6 +251,9 @@ def run(chk):
     # (shared with C19 / C04); the request-head parser's resumable-state rules carry the "however the stream is segmented" clause (shared with C03)
     from rules import C03, C19
 
+    from rules import C04
+
+    C04.bodiless(chk, repo, rule="C02.bodiless")
     chk.include(C19.run, ("C19.size",), ("C19.", "C02.multipart."))
     chk.include(C03.run, ("C03.rp", "C03.save", "C03.bufshape", "C03.latch"), ("C03.", "C02.rx."))
 
